@@ -35,7 +35,12 @@ def mantissas(tier, rnd):
             "9007199254740993", "-9007199254740995", "9.999999999999999", "-9.999999999999999", "1.0000000000000002",
             "4503599627370497.5", "0.1000000000000000055511151231257827", "123456789012345678",
             # signed zeros and zeros with exponents: they are all the value 0
-            "-0", "-0.0", "0E+3", "-0E-7", "0.000"]
+            "-0", "-0.0", "0E+3", "-0E-7", "0.000",
+            # values a hair (far less than the comparison tolerance) inside the next whole number: the integer part is the
+            # whole number BELOW
+            "0.99999999999999999999999", "2999.9999999999999999999999", "-41999999.999999999999999999999",
+            "-0.9999999999999999999999999", "6.9999999999999999999999", "1.0000000000000000000000001",
+            "0.3333333333333333333333333333"]
     n = 60 if tier == "thorough" else 8
     for _ in range(n):
         digits = rnd.randint(1, 25)
@@ -87,6 +92,30 @@ def check_pair(case):
     y = Prefixed(number=Decimal(b), prefix=Prefix[pb])
     ex, ey = exact(x), exact(y)
     w = {"case": repr(case)}
+    # frame: the thread's decimal context belongs to the caller. No operation - succeeding or failing - leaves it changed
+    # (every later result would silently depend on which operations came before)
+    import decimal as _dec
+
+    def dctx():
+        c = _dec.getcontext()
+        return (c.prec, c.rounding, c.Emin, c.Emax, c.capitals, c.clamp, tuple(sorted(str(t) for t, on in c.traps.items() if on)))
+    ctx0 = dctx()
+
+    def worse(now):
+        # (more working precision than before is no loss; less, or another rounding rule, makes later results depend on history)
+        return now[0] < ctx0[0] or now[1:] != ctx0[1:]
+    zero = Prefixed(number=Decimal(0), prefix=Prefix[pb])
+    for name, f in (("div-by-prefixed-zero", lambda: x / zero), ("rdiv-by-prefixed-zero", lambda: Decimal(a) / zero if False else zero.__rtruediv__(x)),
+                    ("div", lambda: x / y), ("div-by-zero-scalar", lambda: x / 0), ("pow", lambda: x ** 2), ("pow-bad", lambda: x ** "k"),
+                    ("add-bad", lambda: x + "k"), ("compare-bad", lambda: x < "k")):
+        try:
+            f()
+        except Exception:
+            pass
+        if worse(dctx()):
+            got = dctx()
+            _dec.getcontext().prec = ctx0[0]
+            return ("frame.decimal-context", f"{name} on {x!r}, {y!r} left the decimal context changed: {got} (was {ctx0})", w)
     # comparisons: total (never raise), consistent, agree with exact values beyond the tolerance
     try:
         lt, le, eq, ne, gt, ge = x < y, x <= y, x == y, x != y, x > y, x >= y
@@ -155,6 +184,10 @@ def check_pair(case):
                        sig_digits(ey / small) if name in ("add", "sub") else 0)
             cls = "needs-more-than-28-digits" if need > 28 else "inexact"
             return (f"{name}.{cls}", f"{name} of {x!r}, {y!r} gives {r!r} = {exact(r)}, exact result is {want}", w)
+    if worse(dctx()):
+        got = dctx()
+        _dec.getcontext().prec = ctx0[0]
+        return ("frame.decimal-context", f"operations on {x!r}, {y!r} left the decimal context changed: {got} (was {ctx0})", w)
     return None
 
 
